@@ -3,6 +3,7 @@ package main
 import (
 	"fmt"
 	"math/bits"
+	"runtime/debug"
 	"strconv"
 	"strings"
 
@@ -245,6 +246,7 @@ func init() {
 	// 2^25-word bitmap included); after every Set the bit reads 1, the words cover it, and exactly the positions set so
 	// far are 1.  Output "ok" or the first discrepancy.
 	reg("buildersetprobe", func(a []string) string {
+		debug.FreeOSMemory()
 		b := bitmap.NewBuilder(0)
 		set := map[int32]bool{}
 		for _, p := range parseI32s(a[0]) {
@@ -323,6 +325,9 @@ func init() {
 	// tbprobe shape n: TailBitmap histories of millions of Sets; the C15 clauses are evaluated here on the real code
 	reg("tbprobe", func(a []string) string {
 		n := mustI64(a[1]) // words
+		if n >= 1<<20 {
+			debug.FreeOSMemory()
+		}
 		tb := bitmap.NewTailBitmap(0)
 		var everSet []int64 // indices that were set and must stay answerable (C15: "for every j up to the highest index ever set")
 		check := func(when string, isSet func(int64) bool) string {
